@@ -503,3 +503,14 @@ package cisco
 //vc:func simpleObjEqual
 //vc:  hypothesis[C01] len(al) > 0 && len(bl) > 0 && al[0] != nil && bl[0] != nil
 //vc:  ensures[C01,C02] @equalObjectsHaveEqualSize result ==> al[0].parsed == bl[0].parsed && len(al[0].sub) == len(bl[0].sub)
+
+// MergeSpoc: every object of a raw file that nothing refers to is reported
+// ("Ignoring unused ... in raw"), one warning per object - objects of different
+// kinds may share a name (tunnel-group X, group-policy X).
+//vc:ghost var unusedSeen int
+//vc:func (*Config).MergeSpoc
+//vc:  init unusedSeen = 0
+//vc:  assign after "warnings = append(warnings," unusedSeen = unusedSeen + 1
+//vc:  assert[C18] at "warnings = append(warnings," @everyUnusedRawObjectReported !used
+//vc:  invariant[C18] 4 "for c, used := range isReferenced" @oneWarningPerUnusedObject len(warnings) == unusedSeen
+//vc:  assert[C18] at "sort.Strings(warnings)" @allWarningsKept len(warnings) == unusedSeen
